@@ -347,3 +347,536 @@ Proof.
   intros H. apply (mem_states_In _ enc_cstate enc_cstate_inj) in H.
   exact (reach_set_sound cstate (cstep C) enc_cstate fuel init s H).
 Qed.
+
+(** * 4. The abstraction is respected by every transition of every reachable control state *)
+Definition trans_cert : bool :=
+  forallb (fun s => forallb (fun lc : label * cstate => trans_ok (fst lc) (abs s) (abs (snd lc))) (cstep_lbl cfg_repo s)) Rset.
+Lemma trans_cert_ok : trans_cert = true.
+Proof. vm_compute. reflexivity. Qed.
+
+Lemma trans_ok_reachable tls c l c' :
+  reachable (cstep cfg_repo) (cinit tls) c -> In (l, c') (cstep_lbl cfg_repo c) ->
+  trans_ok l (abs c) (abs c') = true.
+Proof.
+  intros H Hin. apply reachable_in_Rset in H.
+  pose proof trans_cert_ok as Hc. unfold trans_cert in Hc. rewrite forallb_forall in Hc.
+  specialize (Hc c H). rewrite forallb_forall in Hc. exact (Hc (l, c') Hin).
+Qed.
+
+(** the ghost-augmented system projects onto the control skeleton *)
+Lemma gstep_control C A x y : In y (gstep C A x) -> In (fst y) (cstep C (fst x)).
+Proof.
+  unfold gstep, cstep. intros H. apply in_flat_map in H. destruct H as [[l c'] [Hin Hy]].
+  apply in_map_iff. exists (l, c'). split; [|exact Hin].
+  destruct (is_recv l).
+  - apply in_map_iff in Hy. destruct Hy as [m [<- _]]. reflexivity.
+  - destruct Hy as [<-|[]]. reflexivity.
+Qed.
+
+Lemma greachable_control C A x0 x :
+  reachable (gstep C A) x0 x -> reachable (cstep C) (fst x0) (fst x).
+Proof.
+  intros H. induction H as [|x y Hx IH Hy]; [apply reach_init|].
+  eapply reach_step; [exact IH|]. eapply gstep_control; eauto.
+Qed.
+
+(** a ghost step is a labelled control step plus the ghost update for that label *)
+Lemma gstep_inv C A x y :
+  In y (gstep C A x) ->
+  exists l c' m, In (l, c') (cstep_lbl C (fst x)) /\ y = (c', gupd l m (snd x)) /\
+                 (is_recv l = true -> msg_fits l m = true).
+Proof.
+  unfold gstep. intros H. apply in_flat_map in H. destruct H as [[l c'] [Hin Hy]].
+  destruct (is_recv l) eqn:Er.
+  - apply in_map_iff in Hy. destruct Hy as [m [<- Hm]]. apply filter_In in Hm. destruct Hm as [_ Hm].
+    exists l, c', m. repeat split; auto.
+  - destruct Hy as [<-|[]]. exists l, c', MResp. repeat split; auto. intros E. rewrite Er in E. discriminate E.
+Qed.
+
+(** * 5. Ghost invariant *)
+Definition is_bad (m : msg) : bool := match m with MEnc | MPlain => true | _ => false end.
+Definition olen {A} (o : option A) : nat := match o with Some _ => 1 | None => 0 end.
+
+Record Inv (a : absst) (g : ghost) : Prop := {
+  i_r : match a_rfull a, rslot g with
+        | Some e, Some x => is_bad (snd x) = e
+        | None, None => True
+        | _, _ => False
+        end;
+  i_h : match a_hst a with
+        | HNone => hslot g = None /\ hresp g = None
+        | HMsg => hslot g <> None /\ hresp g = None
+        | HResp => hslot g = None /\ hresp g <> None
+        end;
+  i_w : (wslot g = None <-> a_wfull a = false);
+  i_next : nextid g = Z.of_nat (length (reads g));
+  i_writes : writes g = map resp_entry (firstn (length (writes g)) (reads g));
+  i_le1 : length (writes g) + olen (wslot g) <= enq g;
+  i_le2 : enq g + (olen (hslot g) + olen (hresp g)) <= handed g;
+  i_le3 : handed g + olen (rslot g) <= length (reads g);
+  i_rpos : a_rdead a = false ->
+           length (reads g) = handed g + olen (rslot g) /\
+           forall x, rslot g = Some x -> nth_error (reads g) (handed g) = Some x;
+  i_hpos : forall x, hslot g = Some x -> nth_error (reads g) (handed g - 1) = Some x;
+  i_hrpos : forall y, hresp g = Some y -> exists x, nth_error (reads g) (handed g - 1) = Some x /\ y = resp_entry x;
+  i_hcnt : a_hexit a = false -> enq g + (olen (hslot g) + olen (hresp g)) = handed g;
+  i_wpos : forall y, wslot g = Some y -> exists x, nth_error (reads g) (enq g - 1) = Some x /\ y = resp_entry x;
+  i_wcnt : a_wdead a = false -> length (writes g) + olen (wslot g) = enq g;
+  i_bad : forall i x, nth_error (reads g) i = Some x -> is_bad (snd x) = true -> i < handed g ->
+          a_herr a = true /\ S i = handed g;
+  i_ids : forall i x, nth_error (reads g) i = Some x -> fst x = Z.of_nat i
+}.
+
+Lemma inv_init tls : Inv (abs (cinit tls)) ginit.
+Proof.
+  destruct tls; constructor; cbn; auto; try lia; try (intros; discriminate).
+  all: try (split; [reflexivity | intros; discriminate]).
+  all: try (intros i x H; destruct i; discriminate H).
+  all: try (split; auto).
+Qed.
+
+(** decomposition of the boolean transition check *)
+Ltac split_andb H :=
+  repeat match type of H with
+         | _ && _ = true => let H' := fresh "T" in apply andb_true_iff in H; destruct H as [H H']
+         end.
+Ltac break_trans H :=
+  unfold trans_ok, mono, same_r, same_h, same_w in H;
+  repeat match goal with
+         | T : _ && _ = true |- _ => let T' := fresh "T" in apply andb_true_iff in T; destruct T as [T T']
+         end.
+
+Lemma implb_false a b : implb a b = true -> b = false -> a = false.
+Proof. destruct a, b; cbn; congruence. Qed.
+
+(** labels that leave every slot alone *)
+Lemma inv_frame a a' g g' :
+  mono a a' = true -> same_r a a' = true -> same_h a a' = true -> same_w a a' = true ->
+  nextid g' = nextid g -> reads g' = reads g -> rslot g' = rslot g -> hslot g' = hslot g ->
+  hresp g' = hresp g -> wslot g' = wslot g -> writes g' = writes g -> handed g' = handed g -> enq g' = enq g ->
+  Inv a g -> Inv a' g'.
+Proof.
+  intros Hm Hr Hh Hw E1 E2 E3 E4 E5 E6 E7 E8 E9 [].
+  unfold mono in Hm. apply andb_true_iff in Hm. destruct Hm as [Hm M3]. apply andb_true_iff in Hm. destruct Hm as [M1 M2].
+  unfold same_r in Hr. unfold same_h in Hh. apply andb_true_iff in Hh. destruct Hh as [Hh1 Hh2].
+  unfold same_w in Hw. apply eqb_prop in Hw. apply eqb_prop in Hh2.
+  assert (Er : a_rfull a' = a_rfull a).
+  { destruct (a_rfull a) as [[]|], (a_rfull a') as [[]|]; cbn in Hr; try discriminate Hr; reflexivity. }
+  assert (Eh : a_hst a' = a_hst a).
+  { destruct (a_hst a), (a_hst a'); cbn in Hh1; try discriminate Hh1; reflexivity. }
+  constructor; rewrite ?E1, ?E2, ?E3, ?E4, ?E5, ?E6, ?E7, ?E8, ?E9, ?Er, ?Eh, <- ?Hw, <- ?Hh2; auto.
+  - intros D. apply i_rpos0. eapply implb_false; eauto.
+  - intros D. apply i_hcnt0. eapply implb_false; eauto.
+  - intros D. apply i_wcnt0. eapply implb_false; eauto.
+Qed.
+
+Lemma nth_error_app_l {A} (l l' : list A) i x : nth_error l i = Some x -> nth_error (l ++ l') i = Some x.
+Proof. intros H. rewrite nth_error_app1; [exact H|]. apply nth_error_Some. rewrite H. discriminate. Qed.
+
+Lemma firstn_app_le {A} (l l' : list A) n : n <= length l -> firstn n (l ++ l') = firstn n l.
+Proof.
+  intros H. rewrite firstn_app. replace (n - length l) with 0 by lia. cbn. apply app_nil_r.
+Qed.
+
+Lemma firstn_S_nth_error {A} (l : list A) n x : nth_error l n = Some x -> firstn (S n) l = firstn n l ++ [x].
+Proof.
+  revert n. induction l as [|a l IH]; intros n H; destruct n; cbn in *; try discriminate H.
+  - injection H as ->. reflexivity.
+  - f_equal. apply IH. exact H.
+Qed.
+
+Lemma obool_eqb_eq x y : obool_eqb x y = true -> x = y.
+Proof. destruct x as [[]|], y as [[]|]; cbn; intros H; try discriminate H; reflexivity. Qed.
+Lemma hstage_eqb_eq x y : hstage_eqb x y = true -> x = y.
+Proof. destruct x, y; cbn; intros H; try discriminate H; reflexivity. Qed.
+Lemma is_none_eq {A} (x : option A) : is_none x = true -> x = None.
+Proof. destruct x; cbn; intros H; [discriminate H|reflexivity]. Qed.
+
+(** turn the boolean facts produced by [break_trans] into equations *)
+Ltac norm_bools :=
+  repeat match goal with
+         | H : obool_eqb _ _ = true |- _ => apply obool_eqb_eq in H
+         | H : hstage_eqb _ _ = true |- _ => apply hstage_eqb_eq in H
+         | H : is_none _ = true |- _ => apply is_none_eq in H
+         | H : negb _ = true |- _ => apply negb_true_iff in H
+         | H : Bool.eqb _ _ = true |- _ => apply eqb_prop in H
+         end.
+
+Ltac mono_parts Hm M1 M2 M3 :=
+  unfold mono in Hm; apply andb_true_iff in Hm; destruct Hm as [Hm M3];
+  apply andb_true_iff in Hm; destruct Hm as [M1 M2].
+
+Lemma inv_recv l m a a' g :
+  (l = LRecvReq \/ l = LRecvEnc \/ l = LRecvPlain) -> msg_fits l m = true ->
+  trans_ok l a a' = true -> Inv a g -> Inv a' (gupd l m g).
+Proof.
+  intros Hl Hfit T [].
+  assert (Hg : gupd l m g =
+    {| nextid := nextid g + 1; reads := reads g ++ [(nextid g, m)]; rslot := Some (nextid g, m);
+       hslot := hslot g; hresp := hresp g; wslot := wslot g; writes := writes g;
+       handed := handed g; enq := enq g; events := events g |}).
+  { destruct Hl as [->|[->| ->]]; reflexivity. }
+  rewrite Hg. clear Hg.
+  assert (Hspec : exists e, is_bad m = e /\ implb (a_hexit a) (a_hexit a') = true /\ implb (a_wdead a) (a_wdead a') = true
+                 /\ a_rfull a = None /\ a_rdead a = false /\ a_rfull a' = Some e /\ a_rdead a' = false
+                 /\ a_hst a = a_hst a' /\ a_herr a = a_herr a' /\ a_wfull a = a_wfull a').
+  { destruct Hl as [->|[->| ->]]; destruct m; try discriminate Hfit; break_trans T; norm_bools;
+    eexists; repeat split; eauto. }
+  destruct Hspec as [e [Hbad [M2 [M3 [R1 [R2 [R3 [R4 [Eh [Ee Ew]]]]]]]]]].
+  pose proof (i_rpos0 R2) as [Hlen _].
+  rewrite R1 in i_r0. destruct (rslot g) eqn:Ers; [destruct i_r0|]. cbn [olen] in *.
+  constructor; cbn [nextid reads rslot hslot hresp wslot writes handed enq olen]; rewrite ?R3, <- ?Eh, <- ?Ee, <- ?Ew; auto.
+  - rewrite app_length. cbn. lia.
+  - rewrite firstn_app_le by lia. exact i_writes0.
+  - rewrite app_length. cbn. lia.
+  - intros _. rewrite app_length. cbn. split; [lia|]. intros x Hx. injection Hx as <-.
+    rewrite nth_error_app2 by lia. replace (handed g - length (reads g)) with 0 by lia. reflexivity.
+  - intros x Hx. apply nth_error_app_l. auto.
+  - intros y Hy. destruct (i_hrpos0 y Hy) as [x [Hx E]]. exists x. split; [apply nth_error_app_l|]; auto.
+  - intros D. apply i_hcnt0. eapply implb_false; eauto.
+  - intros y Hy. destruct (i_wpos0 y Hy) as [x [Hx E]]. exists x. split; [apply nth_error_app_l|]; auto.
+  - intros D. apply i_wcnt0. eapply implb_false; eauto.
+  - intros i x Hx Hb Hi. apply (i_bad0 i x); auto.
+    rewrite nth_error_app1 in Hx by lia. exact Hx.
+  - intros i x Hx. destruct (Nat.lt_ge_cases i (length (reads g))) as [Hlt|Hge].
+    + rewrite nth_error_app1 in Hx by lia. eauto.
+    + rewrite nth_error_app2 in Hx by lia. destruct (i - length (reads g)) as [|k] eqn:Ek.
+      * cbn in Hx. injection Hx as <-. cbn [fst]. rewrite i_next0. f_equal. lia.
+      * destruct k; discriminate Hx.
+Qed.
+
+Ltac trans_spec := let T := fresh "T" in intros T; break_trans T; norm_bools; repeat split; try assumption; try (symmetry; assumption).
+
+Lemma spec_fatal l a a' : (l = LRecvPlainFatal \/ l = LRecvFail) -> trans_ok l a a' = true ->
+  a_rfull a = None /\ a_rdead a = false /\ a_rfull a' = None /\ a_rdead a' = true /\
+  a_hst a' = a_hst a /\ a_herr a' = a_herr a /\ a_wfull a' = a_wfull a /\
+  implb (a_hexit a) (a_hexit a') = true /\ implb (a_wdead a) (a_wdead a') = true.
+Proof. intros [->| ->]; trans_spec. Qed.
+
+Lemma spec_rdrop a a' : trans_ok LRDrop a a' = true ->
+  a_rfull a' = None /\ a_rdead a' = true /\
+  a_hst a' = a_hst a /\ a_herr a' = a_herr a /\ a_wfull a' = a_wfull a /\
+  implb (a_hexit a) (a_hexit a') = true /\ implb (a_wdead a) (a_wdead a') = true.
+Proof. trans_spec. Qed.
+
+Lemma spec_handoff a a' : trans_ok LHandoff a a' = true ->
+  exists e, a_rfull a = Some e /\ a_herr a' = e /\
+  a_rdead a = false /\ a_hexit a = false /\ a_herr a = false /\ a_hst a = HNone /\
+  a_rfull a' = None /\ a_rdead a' = false /\ a_hst a' = HMsg /\ a_hexit a' = false /\ a_wfull a' = a_wfull a /\
+  implb (a_wdead a) (a_wdead a') = true.
+Proof.
+  intros T. break_trans T. destruct (a_rfull a) as [e|]; [|discriminate]. norm_bools.
+  exists e. repeat split; try assumption; try (symmetry; assumption).
+Qed.
+
+Lemma spec_hend l a a' : (l = LHEnd \/ l = LMkErrResp) -> trans_ok l a a' = true ->
+  a_hst a = HMsg /\ a_hst a' = HResp /\ a_herr a' = a_herr a /\ a_rfull a' = a_rfull a /\ a_wfull a' = a_wfull a /\
+  implb (a_rdead a) (a_rdead a') = true /\ implb (a_hexit a) (a_hexit a') = true /\ implb (a_wdead a) (a_wdead a') = true.
+Proof. intros [->| ->]; trans_spec. Qed.
+
+Lemma spec_hdrop a a' : trans_ok LHDrop a a' = true ->
+  a_hst a' = HNone /\ a_hexit a' = true /\ a_herr a' = a_herr a /\ a_rfull a' = a_rfull a /\ a_wfull a' = a_wfull a /\
+  implb (a_rdead a) (a_rdead a') = true /\ implb (a_wdead a) (a_wdead a') = true.
+Proof. trans_spec. Qed.
+
+Lemma spec_enqueue a a' : trans_ok LEnqueue a a' = true ->
+  a_hst a = HResp /\ a_hexit a = false /\ a_wfull a = false /\ a_wdead a = false /\
+  a_hst a' = HNone /\ a_hexit a' = false /\ a_wfull a' = true /\ a_wdead a' = false /\
+  a_herr a' = a_herr a /\ a_rfull a' = a_rfull a /\ implb (a_rdead a) (a_rdead a') = true.
+Proof. trans_spec. Qed.
+
+Lemma spec_writeok a a' : trans_ok LWriteOk a a' = true ->
+  a_wfull a = true /\ a_wdead a = false /\ a_wfull a' = false /\ a_wdead a' = false /\
+  a_rfull a' = a_rfull a /\ a_hst a' = a_hst a /\ a_herr a' = a_herr a /\
+  implb (a_rdead a) (a_rdead a') = true /\ implb (a_hexit a) (a_hexit a') = true.
+Proof. trans_spec. Qed.
+
+Lemma spec_writefail a a' : trans_ok LWriteFail a a' = true ->
+  a_wfull a = true /\ a_wfull a' = false /\ a_wdead a' = true /\
+  a_rfull a' = a_rfull a /\ a_hst a' = a_hst a /\ a_herr a' = a_herr a /\
+  implb (a_rdead a) (a_rdead a') = true /\ implb (a_hexit a) (a_hexit a') = true.
+Proof. trans_spec. Qed.
+
+Ltac dead_prem H := let D := fresh "D" in intros D; apply H; eapply implb_false; eauto.
+Ltac absurd_prem R := let D := fresh "D" in intros D; rewrite D in R; discriminate R.
+Ltac nodisc := let z := fresh in let Hz := fresh in intros z Hz; discriminate Hz.
+Ltac lift_h H := let y := fresh in let Hy := fresh in let x := fresh in let Hx := fresh in let E := fresh in
+  intros y Hy; destruct (H y Hy) as [x [Hx E]]; exists x; split; [apply nth_error_app_l|]; auto.
+Ltac gsimp := cbn [gupd nextid reads rslot hslot hresp wslot writes handed enq olen opt_list option_map].
+
+Lemma inv_fatal l m a a' g :
+  (l = LRecvPlainFatal \/ l = LRecvFail) ->
+  trans_ok l a a' = true -> Inv a g -> Inv a' (gupd l m g).
+Proof.
+  intros Hl T []. destruct (spec_fatal l a a' Hl T) as [R1 [R2 [R3 [R4 [Eh [Ee [Ew [M2 M3]]]]]]]].
+  pose proof (i_rpos0 R2) as [Hlen _].
+  rewrite R1 in i_r0. destruct (rslot g) eqn:Ers; [destruct i_r0|]. cbn [olen] in *.
+  destruct Hl as [->| ->].
+  - constructor; gsimp; rewrite ?R3, ?Eh, ?Ee, ?Ew.
+    + exact I.
+    + exact i_h0.
+    + exact i_w0.
+    + rewrite app_length. cbn. lia.
+    + rewrite firstn_app_le by lia. exact i_writes0.
+    + exact i_le4.
+    + exact i_le5.
+    + rewrite app_length. cbn. lia.
+    + absurd_prem R4.
+    + intros x Hx. apply nth_error_app_l. auto.
+    + lift_h i_hrpos0.
+    + dead_prem i_hcnt0.
+    + lift_h i_wpos0.
+    + dead_prem i_wcnt0.
+    + intros i x Hx Hb Hi. apply (i_bad0 i x); auto.
+      rewrite nth_error_app1 in Hx by lia. exact Hx.
+    + intros i x Hx. destruct (Nat.lt_ge_cases i (length (reads g))) as [Hlt|Hge].
+      * rewrite nth_error_app1 in Hx by lia. eauto.
+      * rewrite nth_error_app2 in Hx by lia. destruct (i - length (reads g)) as [|k] eqn:Ek.
+        -- cbn in Hx. injection Hx as <-. cbn [fst]. rewrite i_next0. f_equal. lia.
+        -- destruct k; discriminate Hx.
+  - constructor; cbn [gupd]; rewrite ?R3, ?Eh, ?Ee, ?Ew, ?Ers; auto;
+      first [absurd_prem R4 | dead_prem i_hcnt0 | dead_prem i_wcnt0].
+Qed.
+
+Lemma inv_rdrop m a a' g :
+  trans_ok LRDrop a a' = true -> Inv a g -> Inv a' (gupd LRDrop m g).
+Proof.
+  intros T []. destruct (spec_rdrop a a' T) as [R3 [R4 [Eh [Ee [Ew [M2 M3]]]]]].
+  constructor; gsimp; rewrite ?R3, ?Eh, ?Ee, ?Ew.
+  - exact I.
+  - exact i_h0.
+  - exact i_w0.
+  - exact i_next0.
+  - exact i_writes0.
+  - exact i_le4.
+  - exact i_le5.
+  - lia.
+  - absurd_prem R4.
+  - exact i_hpos0.
+  - exact i_hrpos0.
+  - dead_prem i_hcnt0.
+  - exact i_wpos0.
+  - dead_prem i_wcnt0.
+  - exact i_bad0.
+  - exact i_ids0.
+Qed.
+
+Lemma inv_handoff m a a' g :
+  trans_ok LHandoff a a' = true -> Inv a g -> Inv a' (gupd LHandoff m g).
+Proof.
+  intros T []. destruct (spec_handoff a a' T) as [e [R1 [Ee [R2 [H2 [He [Hh [R3 [R4 [Hh' [H2' [Ew M3]]]]]]]]]]]].
+  rewrite R1 in i_r0. destruct (rslot g) as [x|] eqn:Ers; [|destruct i_r0].
+  rewrite Hh in i_h0. destruct i_h0 as [Hhs Hhr].
+  pose proof (i_rpos0 R2) as [Hlen Hpos]. specialize (Hpos x eq_refl).
+  pose proof (i_hcnt0 H2) as Hcnt. rewrite Hhs, Hhr in *. cbn [olen] in *.
+  constructor; gsimp; rewrite ?R3, ?Hh', ?Ew, ?Ers, ?Hhs, ?Hhr; cbn [olen].
+  - exact I.
+  - split; [discriminate|reflexivity].
+  - exact i_w0.
+  - exact i_next0.
+  - exact i_writes0.
+  - exact i_le4.
+  - lia.
+  - lia.
+  - intros _. split; [lia|]. nodisc.
+  - intros y Hy. injection Hy as <-. replace (S (handed g) - 1) with (handed g) by lia. exact Hpos.
+  - nodisc.
+  - intros _. lia.
+  - exact i_wpos0.
+  - dead_prem i_wcnt0.
+  - intros i y Hy Hb Hi.
+    destruct (Nat.eq_dec i (handed g)) as [->|Hne].
+    + split; [|reflexivity]. rewrite Hpos in Hy. injection Hy as <-. rewrite Ee. rewrite <- i_r0. exact Hb.
+    + assert (Hlt : i < handed g) by lia. destruct (i_bad0 i y Hy Hb Hlt) as [Hc _].
+      rewrite Hc in He. discriminate He.
+  - exact i_ids0.
+Qed.
+
+Lemma inv_hend l m a a' g :
+  (l = LHEnd \/ l = LMkErrResp) ->
+  trans_ok l a a' = true -> Inv a g -> Inv a' (gupd l m g).
+Proof.
+  intros Hl T []. destruct (spec_hend l a a' Hl T) as [Hh [Hh' [Ee [Er [Ew [M1 [M2 M3]]]]]]].
+  rewrite Hh in i_h0. destruct i_h0 as [Hhs Hhr].
+  destruct (hslot g) as [x|] eqn:Ehs; [|contradiction Hhs; reflexivity].
+  rewrite Hhr in *. cbn [olen] in *.
+  assert (Hg : forall ev, Inv a'
+    {| nextid := nextid g; reads := reads g; rslot := rslot g; hslot := None; hresp := option_map resp_entry (Some x);
+       wslot := wslot g; writes := writes g; handed := handed g; enq := enq g; events := ev |}).
+  { intros ev. constructor; gsimp; rewrite ?Hh', ?Ee, ?Er, ?Ew.
+    - exact i_r0.
+    - split; [reflexivity|discriminate].
+    - exact i_w0.
+    - exact i_next0.
+    - exact i_writes0.
+    - exact i_le4.
+    - lia.
+    - exact i_le6.
+    - dead_prem i_rpos0.
+    - nodisc.
+    - intros y Hy. injection Hy as <-. exists x. split; auto.
+    - intros D. rewrite <- i_hcnt0; [lia|]. eapply implb_false; eauto.
+    - exact i_wpos0.
+    - dead_prem i_wcnt0.
+    - exact i_bad0.
+    - exact i_ids0. }
+  destruct Hl as [->| ->]; cbn [gupd]; rewrite Ehs; apply Hg.
+Qed.
+
+Lemma inv_hdrop m a a' g :
+  trans_ok LHDrop a a' = true -> Inv a g -> Inv a' (gupd LHDrop m g).
+Proof.
+  intros T []. destruct (spec_hdrop a a' T) as [Hh' [H2' [Ee [Er [Ew [M1 M3]]]]]].
+  constructor; gsimp; rewrite ?Hh', ?Ee, ?Er, ?Ew.
+  - exact i_r0.
+  - split; reflexivity.
+  - exact i_w0.
+  - exact i_next0.
+  - exact i_writes0.
+  - exact i_le4.
+  - lia.
+  - exact i_le6.
+  - dead_prem i_rpos0.
+  - nodisc.
+  - nodisc.
+  - absurd_prem H2'.
+  - exact i_wpos0.
+  - dead_prem i_wcnt0.
+  - exact i_bad0.
+  - exact i_ids0.
+Qed.
+
+Lemma inv_enqueue m a a' g :
+  trans_ok LEnqueue a a' = true -> Inv a g -> Inv a' (gupd LEnqueue m g).
+Proof.
+  intros T []. destruct (spec_enqueue a a' T) as [Hh [H2 [W1 [W2 [Hh' [H2' [W1' [W2' [Ee [Er M1]]]]]]]]]].
+  rewrite Hh in i_h0. destruct i_h0 as [Hhs Hhr].
+  destruct (hresp g) as [y|] eqn:Ehr; [|contradiction Hhr; reflexivity].
+  assert (Hw : wslot g = None) by (apply i_w0; exact W1).
+  pose proof (i_hcnt0 H2) as Hcnt. pose proof (i_wcnt0 W2) as Wcnt.
+  rewrite Hhs, Hw in *. cbn [olen] in *.
+  destruct (i_hrpos0 y eq_refl) as [x [Hx Hy]].
+  constructor; gsimp; rewrite ?Hh', ?Ee, ?Er, ?Ehr, ?Hw, ?Hhs; cbn [olen].
+  - exact i_r0.
+  - split; reflexivity.
+  - split; [intros D; discriminate D | intros D; rewrite D in W1'; discriminate W1'].
+  - exact i_next0.
+  - exact i_writes0.
+  - lia.
+  - lia.
+  - exact i_le6.
+  - dead_prem i_rpos0.
+  - nodisc.
+  - nodisc.
+  - intros _. lia.
+  - intros z Hz. injection Hz as <-. exists x. split; [|exact Hy].
+    replace (S (enq g) - 1) with (handed g - 1) by lia. exact Hx.
+  - intros _. lia.
+  - exact i_bad0.
+  - exact i_ids0.
+Qed.
+
+Lemma inv_writeok m a a' g :
+  trans_ok LWriteOk a a' = true -> Inv a g -> Inv a' (gupd LWriteOk m g).
+Proof.
+  intros T []. destruct (spec_writeok a a' T) as [W1 [W2 [W1' [W2' [Er [Eh [Ee [M1 M2]]]]]]]].
+  destruct (wslot g) as [y|] eqn:Ews.
+  2:{ assert (a_wfull a = false) by (apply i_w0; reflexivity). congruence. }
+  pose proof (i_wcnt0 W2) as Wcnt. cbn [olen] in *.
+  destruct (i_wpos0 y eq_refl) as [x [Hx Hy]].
+  assert (Hlen : length (writes g) < length (reads g)).
+  { apply nth_error_Some. replace (length (writes g)) with (enq g - 1) by lia. rewrite Hx. discriminate. }
+  constructor; gsimp; rewrite ?Er, ?Eh, ?Ee, ?Ews; cbn [olen opt_list].
+  - exact i_r0.
+  - exact i_h0.
+  - split; [intros _; exact W1' | reflexivity].
+  - exact i_next0.
+  - rewrite app_length. cbn [length].
+    replace (length (writes g) + 1) with (S (length (writes g))) by lia.
+    rewrite (firstn_S_nth_error _ _ x) by (replace (length (writes g)) with (enq g - 1) by lia; exact Hx).
+    rewrite map_app. cbn [map]. rewrite <- Hy. f_equal. exact i_writes0.
+  - rewrite app_length. cbn. lia.
+  - exact i_le5.
+  - exact i_le6.
+  - dead_prem i_rpos0.
+  - exact i_hpos0.
+  - exact i_hrpos0.
+  - dead_prem i_hcnt0.
+  - nodisc.
+  - intros _. rewrite app_length. cbn. lia.
+  - exact i_bad0.
+  - exact i_ids0.
+Qed.
+
+Lemma inv_writefail m a a' g :
+  trans_ok LWriteFail a a' = true -> Inv a g -> Inv a' (gupd LWriteFail m g).
+Proof.
+  intros T []. destruct (spec_writefail a a' T) as [W1 [W1' [W2' [Er [Eh [Ee [M1 M2]]]]]]].
+  constructor; gsimp; rewrite ?Er, ?Eh, ?Ee.
+  - exact i_r0.
+  - exact i_h0.
+  - split; [intros _; exact W1' | reflexivity].
+  - exact i_next0.
+  - exact i_writes0.
+  - lia.
+  - exact i_le5.
+  - exact i_le6.
+  - dead_prem i_rpos0.
+  - exact i_hpos0.
+  - exact i_hrpos0.
+  - dead_prem i_hcnt0.
+  - nodisc.
+  - absurd_prem W2'.
+  - exact i_bad0.
+  - exact i_ids0.
+Qed.
+
+(** all remaining labels move no data *)
+Lemma inv_other l m a a' g :
+  match l with
+  | LRecvReq | LRecvEnc | LRecvPlain | LRecvPlainFatal | LRecvFail | LRDrop | LHandoff | LHEnd | LMkErrResp
+  | LHDrop | LEnqueue | LWriteOk | LWriteFail => False
+  | _ => True
+  end ->
+  trans_ok l a a' = true -> Inv a g -> Inv a' (gupd l m g).
+Proof.
+  intros Hl T HI.
+  destruct l; try contradiction Hl;
+    (unfold trans_ok in T; apply andb_true_iff in T; destruct T as [Tm T];
+     repeat match type of T with _ && _ = true => let T' := fresh "T" in apply andb_true_iff in T; destruct T as [T T'] end;
+     eapply inv_frame; try exact HI; try exact Tm; try reflexivity;
+     try assumption).
+Qed.
+
+Lemma inv_step l m a a' g :
+  (is_recv l = true -> msg_fits l m = true) ->
+  trans_ok l a a' = true -> Inv a g -> Inv a' (gupd l m g).
+Proof.
+  intros Hfit T HI.
+  destruct l;
+    match goal with
+    | |- Inv _ (gupd ?l _ _) =>
+      first [ exact (inv_other l m a a' g I T HI)
+            | exact (inv_recv l m a a' g ltac:(tauto) (Hfit eq_refl) T HI)
+            | exact (inv_fatal l m a a' g ltac:(tauto) T HI)
+            | exact (inv_rdrop m a a' g T HI)
+            | exact (inv_handoff m a a' g T HI)
+            | exact (inv_hend l m a a' g ltac:(tauto) T HI)
+            | exact (inv_hdrop m a a' g T HI)
+            | exact (inv_enqueue m a a' g T HI)
+            | exact (inv_writeok m a a' g T HI)
+            | exact (inv_writefail m a a' g T HI) ]
+    end.
+Qed.
+
+(** The invariant holds in every reachable state of the ghost-augmented system, whatever
+    messages the peer sends (alphabet [A]) and whatever the schedule. *)
+Theorem ghost_inv : forall A tls x,
+  reachable (gstep cfg_repo A) (ginit_state tls) x -> Inv (abs (fst x)) (snd x).
+Proof.
+  intros A tls x H. induction H as [|x y Hx IH Hy]; [apply inv_init|].
+  pose proof (greachable_control _ _ _ _ Hx) as Hc. cbn [fst ginit_state] in Hc.
+  destruct (gstep_inv _ _ _ _ Hy) as [l [c' [m [Hin [-> Hfit]]]]].
+  cbn [fst snd]. apply (inv_step l m (abs (fst x)) (abs c') (snd x)); [exact Hfit | | exact IH].
+  eapply trans_ok_reachable; eauto.
+Qed.
